@@ -4,6 +4,26 @@ that the manifest stays valid and consistent while checks are added)."""
 import json, sys
 
 CHECKS = {
+ "C13": ("exploration",
+         "runtime differential monitor over all Add orders (bundle fingerprints) and over concurrent Add calls on one builder under the Go race detector with yields injected in harness callbacks; coalescing check",
+         "The same multiset of Add calls is built in every order (all n! for n<=4, 24 sampled beyond) and with 2-8 concurrent goroutines (race-instrumented worker, 4 builds per world, PRNG Gosched bursts / sleeps inside every callback); manifest bytes, checksum, top-level names, lookup answers and per-directory contents must equal the reference build, exactly-once counting must hold under concurrency, race reports are violations; packages with equal path->content maps must share a directory and unequal ones must not.",
+         "Interleavings are those the scheduler produced (distinct callback interleavings are counted in the evidence); modes / empty directories of coalesced packages are not compared.",
+         "DESIGN.md §5 C13"),
+ "C09": ("exploration",
+         "runtime monitor: full accessor sweep and directory-tree comparison of Close() vs OpenDir() vs ExtractArchive(WriteArchive())",
+         "Bundles built from worlds with odd addresses, aliases, several registry versions, deprecations, metadata and packages with links, empty directories, odd modes and odd names are re-opened and sent through WriteArchive/ExtractArchive; a sweep over every accessor (incl. all lookups relative to the root and SourceForLocalPath of every path) must print identically for all three (and twice for the first), and the extracted tree must equal the built one.",
+         "Modification times are not compared.",
+         "DESIGN.md §5 C09"),
+ "C10": ("exploration",
+         "runtime monitor: physical link resolution and reference ignore verdicts over every package directory of the finished bundle; independent expectation of which fetched trees must fail; snapshot diff around the target directory; exhaustive offender shapes x positions and ordered pairs",
+         "25 shapes (clean and offending links, special files, offenders hidden or created by ignore rules) are planted at each of 3 positions of a dependency graph, and all ordered pairs in two packages. The harness materialises the fetched tree itself, removes reference-excluded paths and resolves the remaining links physically to decide whether the build must fail; successful bundles are walked with the physical resolver and the reference matcher; nothing outside the target directory may change.",
+         "Links to in-package directories are outside the universe.",
+         "DESIGN.md §5 C10"),
+ "C18": ("exploration",
+         "runtime monitor over harness-written manifests: directory-name refusal, containment of every lookup answer, inverse and stability of forward / reverse lookups, refusal of foreign paths",
+         "Field-wise manifests (exhaustive over a 30-name hostile directory alphabet x 3 shapes incl. aliases of equal length), PRNG manifests and structure- / byte-mutated manifests of real builds are written into a bundle root; whenever OpenDir accepts one, the four clauses of the property are checked over all listed packages and registry versions, 8 in-package path shapes in two spellings and 7 foreign paths.",
+         "The harness learns the document's directory names by decoding it leniently itself.",
+         "DESIGN.md §5 C18"),
  "C08": ("exploration",
          "runtime monitor: real Builder driven by scripted fetcher/registry/finders; bundle lookups and files vs a reference closure computed by independent harness code; exhaustive small worlds + PRNG worlds",
          "Each scripted world is built with the real Builder; a reference closure (harness path algebra and version choice) lists every source that must be resolvable. For every closure source the lookup must succeed, lie inside the bundle directory and show exactly the fetched content; registry lookups must equal the lookup of the named remote address joined with the sub-path; package metadata, registry versions, source addresses and deprecations must be retrievable unchanged. Exhaustive over 2 x 19683 three-location worlds (every 9th in quick) plus PRNG worlds with aliasing content, cycles, diamonds, several finders.",
